@@ -167,6 +167,12 @@ def replay_counterexample(root, rec, r, sel, log, prop):
 def replay_file(path):
     rep = json.load(open(path))
     inst = dict(rep["instance"])
+    # prefer the current definition of the same instance (the template signature may have gained parameters)
+    from . import registry
+    for i in registry.INSTANCES:
+        if i["name"] == inst["name"]:
+            inst = dict(i)
+            break
     inst.setdefault("props", {})
     inst.setdefault("optional_covers", [])
     root = pl.make_scratch([inst])
